@@ -22,6 +22,10 @@ TRUSTED_BASE = [
 ]
 
 
+class Abort(Exception):
+    pass
+
+
 class Lock:
     def __init__(self, name):
         self.path = os.path.join(VERIF, "." + name + ".lock")
@@ -209,6 +213,80 @@ def run_isolated(exe, requests, mem_bytes=2 << 30, timeout_total=900, args=()):
 
 def run_driver(requests, timeout=900):
     return run_stream(DRIVER, requests, timeout=timeout, isolate=True)
+
+
+_built = {}
+
+
+def harness(run, profile="release"):
+    """Build (once per process) the harness against the current /repo tree; a compile failure is a broken tie."""
+    if profile in _built:
+        return _built[profile]
+    ok, out, exe = cargo_build(profile)
+    if not ok:
+        run.tie_breaks.append(("harness-build", f"cargo build ({profile}) of /verif/harness against {REPO}", out[-3000:]))
+        raise Abort("the harness does not build against the current /repo tree")
+    _built[profile] = exe
+    return exe
+
+
+def both(run, requests, label, profile="release", isolate=False, canon=None, timeout=1800, compare=True):
+    """Run the same request lines through the implementation (harness) and the model (Lean driver)."""
+    exe = harness(run, profile)
+    if isolate:
+        impl = run_isolated(exe, requests, timeout_total=timeout)
+    else:
+        impl = run_stream(exe, requests, timeout=timeout, isolate=True)
+    model = run_driver(requests, timeout=timeout)
+    if compare:
+        run.correspond(requests, impl, model, canon, label)
+    return impl, model
+
+
+def impl_only(run, requests, profile="release", isolate=False, timeout=1800):
+    exe = harness(run, profile)
+    if isolate:
+        return run_isolated(exe, requests, timeout_total=timeout)
+    return run_stream(exe, requests, timeout=timeout, isolate=True)
+
+
+def replay(prop_id, path, mod):
+    """Re-run the requests recorded in a replay file against the current tree and the model."""
+    data = json.load(open(path))
+    reqs = []
+    for v in data.get("violations", []):
+        r = v.get("request")
+        if isinstance(r, str):
+            reqs.append(r)
+        elif isinstance(r, list):
+            reqs.extend(r)
+    for d in data.get("correspondence_disagreements", []):
+        if isinstance(d.get("request"), str) and not d["request"].startswith("<"):
+            reqs.append(d["request"])
+    if not reqs:
+        print(json.dumps(data, indent=1)[:4000])
+        print("(no request lines recorded; the replay names the broken obligation)")
+        return 0
+    ok, msg = run_translator()
+    lake_build(["a5driver"])
+    ok, out, exe = cargo_build("release")
+    if not ok:
+        print(out[-2000:])
+        return 2
+    impl = run_stream(exe, reqs, isolate=True)
+    model = run_driver(reqs)
+    bad = 0
+    for q, a, b in zip(reqs, impl, model):
+        verdict = ""
+        if hasattr(mod, "oracle"):
+            try:
+                msg = mod.oracle(q, a)
+                verdict = "oracle: " + ("ok" if not msg else "FAIL " + msg)
+                bad += 1 if msg else 0
+            except Exception as e:  # noqa
+                verdict = f"oracle error {e}"
+        print(f"request: {q[:500]}\n  impl : {a[:500]}\n  model: {b[:500]}\n  {verdict}")
+    return 1 if bad else 0
 
 
 # ----------------------------------------------------------------------------------------------
